@@ -959,9 +959,7 @@ class Series(ContainerOperand):
         '''
         # get positions that we want to keep
         sel = np.logical_not(isna_array(self.values))
-        if not np.any(sel):
-            return self.__class__(())
-
+        # NOTE: when nothing is kept the result is the empty selection, with the name, dtype and index class of this Series
         values = self.values[sel]
         values.flags.writeable = False
 
